@@ -1,1 +1,58 @@
-import EoNVerif.Basic
+import EoNVerif.Proofs.PrefixDet
+/-!
+C18 — a simulation is a function of (inputs, the consumed prefix of the random stream).
+Running a model on a longer tape gives the same result and leaves exactly the extra draws unconsumed; in particular
+two runs from identically seeded generators (same stream) coincide, and nothing but the five primitives is consumed.
+The definitions `TapeSt.extend` and `TM.PrefixDet` live in `EoNVerif.Proofs.PrefixDet`.
+-/
+
+namespace TM
+theorem prefixDet_pure {α : Type} (a : α) : PrefixDet (pure a : TM α) := prefixDet_pure' a
+theorem prefixDet_bind {α β : Type} (m : TM α) (f : α → TM β) (hm : PrefixDet m) (hf : ∀ a, PrefixDet (f a)) :
+    PrefixDet (m >>= f) := prefixDet_bind' m f hm hf
+theorem prefixDet_popUnif : PrefixDet TM.popUnif := prefixDet_popUnif'
+theorem prefixDet_popExpo (r : Rat) : PrefixDet (TM.popExpo r) := prefixDet_popExpo' r
+theorem prefixDet_popChoice (seq : List (List Nat)) : PrefixDet (TM.popChoice seq) := prefixDet_popChoice' seq
+theorem prefixDet_popSample (n k : Nat) : PrefixDet (TM.popSample n k) := prefixDet_popSample' n k
+theorem prefixDet_popBinom (n : Nat) (p : Rat) : PrefixDet (TM.popBinom n p) := prefixDet_popBinom' n p
+end TM
+
+theorem gillespie_prefixDet (P : GParams) (infs recs : List Node) (tmin : Rat) (tmax : ERat) (fuel cfuel : Nat) :
+    TM.PrefixDet (Gillespie.run P infs recs tmin tmax fuel cfuel) :=
+  Gillespie.run_prefixDet P infs recs tmin tmax fuel cfuel
+
+theorem complex_prefixDet {σ : Type} [DecidableEq σ] (P : CCParams σ) (ic : Node → σ) (tmin : Rat) (tmax : ERat) (fuel cfuel : Nat) :
+    TM.PrefixDet (Complex.run P ic tmin tmax fuel cfuel) :=
+  Complex.run_prefixDet P ic tmin tmax fuel cfuel
+
+theorem simple_prefixDet {σ : Type} [DecidableEq σ] (P : SCParams σ) (ic : Node → σ) (tmin : Rat) (tmax : ERat) (fuel cfuel : Nat) :
+    TM.PrefixDet (Simple.run P ic tmin tmax fuel cfuel) :=
+  Simple.run_prefixDet P ic tmin tmax fuel cfuel
+
+theorem fastSIS_prefixDet (P : FSParams) (infs : List Node) (fuel : Nat) :
+    TM.PrefixDet (FastSIS.run P infs fuel) :=
+  FastSIS.run_prefixDet P infs fuel
+
+/-- reproducibility: identical inputs and identical streams give identical outputs (and consume the same amount) -/
+theorem gillespie_reproducible (P : GParams) (infs recs : List Node) (tmin : Rat) (tmax : ERat) (fuel cfuel : Nat)
+    (ts₁ ts₂ : TapeSt) (h : ts₁ = ts₂) :
+    Gillespie.run P infs recs tmin tmax fuel cfuel ts₁ = Gillespie.run P infs recs tmin tmax fuel cfuel ts₂ := by
+  subst h; rfl
+
+/-! non-vacuity: an unweighted SIR run on the path 0–1–2 from node 0 succeeds on a 4-draw tape (transmission 0→1,
+then `tmax` is reached), consuming the whole tape; on the tape extended by two draws it yields the same event log
+and leaves exactly the two extra draws -/
+namespace C18Ex
+def nbrs (u : Node) : List Node := match u with | 0 => [1] | 1 => [0, 2] | 2 => [1] | _ => []
+def P : GParams := { nodes := [0, 1, 2], nbrs := nbrs, tau := 1, gamma := 1, ew := none, nw := none, sis := false }
+def tape : List Draw := [.expo (1/2), .unif (3/4), .choice 0, .expo 2]
+def obs (r : Except String (GState × TapeSt)) : Option (List (Rat × GEvent) × List Draw) :=
+  match r with
+  | .ok (s, ts) => some (s.log, ts.tape)
+  | .error _ => none
+
+example : obs (Gillespie.run P [0] [] 0 (some 1) 5 5 { tape := tape }) =
+    some ([(1/2, GEvent.transmit 0 1)], []) := by decide +kernel
+example : obs (Gillespie.run P [0] [] 0 (some 1) 5 5 (TapeSt.extend { tape := tape } [.unif 0, .binom 3])) =
+    some ([(1/2, GEvent.transmit 0 1)], [.unif 0, .binom 3]) := by decide +kernel
+end C18Ex
